@@ -27,7 +27,11 @@
 EXTENDS Integers, Sequences, FiniteSets, TLC
 
 CONSTANTS Subs,      \* sub-channel names, e.g. {"S1","S2"}
-          MaxVer     \* published / registered versions 0..MaxVer
+          MaxVer,    \* published / registered versions 0..MaxVer
+          Start,     \* the version of the transaction with which watching of a channel starts (the watcher has
+                     \*   registered nothing then, whatever that version is)
+          Backlog    \* TRUE: only sub-channel starts and progressed / concluded events (the driver lets the client read
+                     \*   its events only at the end: "always relayed" must hold however many are waiting)
 
 P == "P"
 Chans == {P} \cup Subs
@@ -40,14 +44,16 @@ VARIABLES watched,   \* Chans -> BOOLEAN
           archived,  \* Subs -> archived version or -1
           regVer,    \* Chans -> version the watcher registered for the channel (0 initially)
           pubVer,    \* Chans -> highest relayed registered version or -1
+          nev,       \* number of progressed / concluded events so far (Backlog mode: keeps the states of a behaviour apart)
           out
-vars == <<watched, latest, locked, archived, regVer, pubVer, out>>
+vars == <<watched, latest, locked, archived, regVer, pubVer, nev, out>>
 core == <<watched, latest, locked, archived, regVer, pubVer>>
 
 NoOut == [reg |-> <<>>, relay |-> {}, res |-> "ok"]
 
 Init == /\ watched = [c \in Chans |-> c = P]
-        /\ latest = [c \in Chans |-> 0]
+        /\ latest = [c \in Chans |-> Start]
+        /\ nev = 0
         /\ locked = <<>>
         /\ archived = [s \in Subs |-> -1]
         /\ regVer = [c \in Chans |-> 0]
@@ -64,28 +70,28 @@ StartSub(s) ==
   /\ Tick
   /\ IF watched[P] /\ ~watched[s]
      THEN /\ watched' = [watched EXCEPT ![s] = TRUE]
-          /\ latest' = [latest EXCEPT ![s] = 0]
+          /\ latest' = [latest EXCEPT ![s] = Start]
           /\ regVer' = [regVer EXCEPT ![s] = 0]
           /\ pubVer' = [pubVer EXCEPT ![s] = -1]
           /\ out' = NoOut
-          /\ UNCHANGED <<locked, archived>>
+          /\ UNCHANGED <<locked, archived, nev>>
      ELSE /\ out' = [NoOut EXCEPT !.res = "refused"]
-          /\ UNCHANGED core
+          /\ UNCHANGED <<core, nev>>
 
 (* Publish the next transaction of c; for P it carries the (new) ordered   *)
 (* list of locked sub-channels, each of which is watched or archived.      *)
 PublishSub(s) ==
-  /\ Tick /\ watched[s] /\ latest[s] < MaxVer
+  /\ Tick /\ ~Backlog /\ watched[s] /\ latest[s] < MaxVer
   /\ latest' = [latest EXCEPT ![s] = @ + 1]
   /\ out' = NoOut
-  /\ UNCHANGED <<watched, locked, archived, regVer, pubVer>>
+  /\ UNCHANGED <<watched, locked, archived, regVer, pubVer, nev>>
 PublishParent(l) ==
-  /\ Tick /\ watched[P] /\ latest[P] < MaxVer
+  /\ Tick /\ ~Backlog /\ watched[P] /\ latest[P] < MaxVer
   /\ \A i \in 1..Len(l) : watched[l[i]] \/ archived[l[i]] >= 0
   /\ latest' = [latest EXCEPT ![P] = @ + 1]
   /\ locked' = l
   /\ out' = NoOut
-  /\ UNCHANGED <<watched, archived, regVer, pubVer>>
+  /\ UNCHANGED <<watched, archived, regVer, pubVer, nev>>
 
 SubVer(s) == IF watched[s] THEN latest[s] ELSE archived[s]
 RegCall == [p |-> latest[P], subs |-> [i \in 1..Len(locked) |-> <<locked[i], SubVer(locked[i])>>]]
@@ -93,7 +99,7 @@ RegCall == [p |-> latest[P], subs |-> [i \in 1..Len(locked) |-> <<locked[i], Sub
 (* registered event for watched channel c with version v; `ok`: whether a  *)
 (* resulting Register call succeeds                                        *)
 ChainRegistered(c, v, ok) ==
-  /\ Tick /\ watched[c]
+  /\ Tick /\ ~Backlog /\ watched[c]
   /\ LET refute == v < latest[c] /\ v >= regVer[c]
          relay  == (~refute \/ ok) /\ (pubVer[c] < v)
      IN /\ regVer' = IF refute /\ ok
@@ -104,15 +110,16 @@ ChainRegistered(c, v, ok) ==
         /\ out' = [reg |-> IF refute THEN <<RegCall>> ELSE <<>>,
                    relay |-> IF relay THEN {<<c, "registered", v>>} ELSE {},
                    res |-> "ok"]
-  /\ UNCHANGED <<watched, latest, locked, archived>>
+  /\ UNCHANGED <<watched, latest, locked, archived, nev>>
 
 ChainOther(c, kind, v) ==
   /\ Tick /\ watched[c]
   /\ out' = [NoOut EXCEPT !.relay = {<<c, kind, v>>}]
+  /\ nev' = IF Backlog THEN nev + 1 ELSE nev
   /\ UNCHANGED core
 
 StopWatching(c) ==
-  /\ Tick
+  /\ Tick /\ ~Backlog /\ nev' = nev
   /\ IF ~watched[c]
      THEN out' = [NoOut EXCEPT !.res = "unknown"] /\ UNCHANGED core
      ELSE IF c = P /\ SubsWatched # {}
